@@ -1,5 +1,6 @@
 """Compiles nodes from the parser into Python code."""
 
+import math
 import typing as t
 from contextlib import contextmanager
 from functools import update_wrapper
@@ -1671,7 +1672,11 @@ class CodeGenerator(NodeVisitor):
     def visit_Const(self, node: nodes.Const, frame: Frame) -> None:
         val = node.as_const(frame.eval_ctx)
         if isinstance(val, float):
-            self.write(str(val))
+            if math.isfinite(val):
+                self.write(str(val))
+            else:
+                # inf and nan have no literal syntax
+                self.write(f"float({str(val)!r})")
         else:
             self.write(repr(val))
 
